@@ -11,11 +11,11 @@ import (
 )
 
 type Layout struct {
-	Name  string
-	Sep   string // between ordinary tokens
-	Tight bool   // no separator next to punctuation
-	Soft  string // "line" | "blank" | "space" | "none"
-	NL    string
+	Name   string
+	Sep    string // between ordinary tokens
+	Tight  bool   // no separator next to punctuation
+	Soft   string // "line" | "blank" | "space" | "none"
+	NL     string
 	Indent bool
 }
 
@@ -40,7 +40,7 @@ func isPunct(t string) bool {
 func Render(tokens []string, l Layout) string {
 	var b strings.Builder
 	depth := 0
-	prev := ""     // previous ordinary token
+	prev := "" // previous ordinary token
 	atLineStart := true
 	pendingBreak := 0 // 0 none, 1 line, 2 blank
 	for _, t := range tokens {
